@@ -80,6 +80,8 @@ def list_patch(rng, cur):
         pat = sub_pattern(rng, e)
         if rng.chance(1, 6):
             pat = {"nope": 1}
+        if rng.chance(1, 6):
+            pat = {}                 # matches every map entry - except the directive entries
         if rng.chance(1, 4):
             pat = invert_somewhere(rng, pat if isinstance(pat, dict) else {"id": 1})
         out = [{"$delete": pat}]
@@ -92,6 +94,8 @@ def list_patch(rng, cur):
             pat = {"nope": 1}
         if rng.chance(1, 4) and isinstance(pat, dict):
             pat = invert_somewhere(rng, pat)
+        if rng.chance(1, 8):
+            pat = {}
         if rng.chance(1, 3):
             # a pattern on a pair that SEVERAL entries share
             shared = [(k, v) for k, v in sorted(e.items(), key=lambda kv: kv[0]) if not isinstance(v, (dict, list)) and sum(1 for o in maps if o.get(k) == v and type(o.get(k)) == type(v)) >= 2]
@@ -203,6 +207,8 @@ def base_tree(rng, depth=3):
                 it["kind"] = rng.pick(["svc", "svc", "job"])
         if rng.chance(1, 3):     # mixed lists: maps next to scalars and lists
             items.insert(rng.below(len(items) + 1), rng.pick([1, "foo", [1], None]))
+        if rng.chance(1, 5):     # directive entries: a pattern (even {}) must never select them
+            items.insert(rng.below(len(items) + 1), rng.pick([{"$merge": "a"}, {"$replace": "b"}, {"$encode": "json"}, {"$merge": "nope", "x": 1}]))
         t[rng.pick(["l", "items"])] = items
     if rng.chance(1, 4):
         t[rng.pick(["req", "hosts"])] = rng.pick([["$required"], ["$required", 1], [1, "$required", {"a": 1}], "$required"])
